@@ -2,9 +2,9 @@ package rules
 
 import (
 	"bytes"
+	"fmt"
 	"go/ast"
 	"go/printer"
-	"fmt"
 	"go/token"
 	"go/types"
 	"regexp"
